@@ -58,6 +58,7 @@ def run(m: Model, r: Report, tier: str) -> None:
     r.rule("R5", "the priority filter keeps records with priority value <= the requested one", floor=2)
     r.rule("R6", "every variable index into the offset table is bounds-checked (negative indices would silently wrap around)", floor=1)
     r.rule("R7", "negative offsets count from the end and are clamped to the beginning for short logs", floor=1)
+    r.rule("R9", "the cached parsed record is dropped whenever the current line changes; the log file is finalised only after the queue listener drained", floor=2)
     r.rule("R8", "hr: head = first n, tail = offset -n, reverse = from the last record backwards", floor=3)
 
     mod = m.module(LOG)
@@ -79,6 +80,38 @@ def run(m: Model, r: Report, tier: str) -> None:
     bad = [k for k, v in kw.items() if f"{REC}['{k}']" not in v]
     r.check(bool(kw) and not bad and set(kw) <= set(pr.class_annots), "R1", f"{pj.qualname}#field-binding",
             f"fields not bound to the key of the same name: {bad}", loc=pj.loc)
+
+    # ---------------------------------------------------------------- R9
+    from sa.cfg import CFG
+    rd_cls = m.require_class(f"{LOG}.PenlogReader")
+    n_set = 0
+    for f in rd_cls.methods.values():
+        if f.name == "__init__":
+            continue
+        gq = CFG(f.node)
+        line_sets = [n for n in gq.nodes.values() if n.kind == "stmt" and isinstance(n.ast, (ast.Assign, ast.AugAssign)) and
+                     ast.unparse(n.ast.targets[0] if isinstance(n.ast, ast.Assign) else n.ast.target) == "self._current_line"]
+        inval = {n.id for n in gq.nodes.values() if n.kind == "stmt" and isinstance(n.ast, ast.Assign) and ast.unparse(n.ast.targets[0]) == "self._current_record"
+                 and isinstance(n.ast.value, ast.Constant) and n.ast.value.value is None}
+        for ls in line_sets:
+            n_set += 1
+            before, _ = gq.must_pass(gq.entry, inval, {ls.id}) if inval else (False, [])
+            after, _ = gq.must_pass(ls.id, inval, {gq.exit_return}, skip_edge=lambda n, b, k: k == "exc") if inval else (False, [])
+            r.check(before or after, "R9", f"{f.qualname}#cache-coherent",
+                    "self._current_line is replaced without dropping the cached parsed record (self._current_record = None): current_record then returns the "
+                    "record of an earlier line (duplicates / missing records when prefixed and prefix-less lines are mixed)", loc=f"{f.module.relpath}:{ls.lineno}")
+    if n_set < 1:
+        raise AnalysisError("PenlogReader: no assignment of self._current_line outside __init__")
+    zc = m.require_function(f"{LOG}._ZstdFileHandler.close")
+    gz = CFG(zc.node)
+    fclose = {n.id for n in gz.nodes.values() if n.kind == "stmt" and n.ast is not None and ("self.file.close()" in ast.unparse(n.ast) or "self.file.flush()" in ast.unparse(n.ast))}
+    stops = {n.id for n in gz.nodes.values() if n.ast is not None and (("queue_listener.stop()" in ast.unparse(n.ast) and n.kind == "stmt") or
+                                                                   (n.kind == "cond" and "queue_listener" in ast.unparse(n.ast)))}
+    if not fclose or not stops:
+        raise AnalysisError(f"{zc.qualname}: file close / listener stop not found")
+    okz, pz = gz.must_pass(gz.entry, stops, fclose)
+    r.check(okz, "R9", f"{zc.qualname}#drain-before-finalise",
+            "the zstd file is flushed / closed before the queue listener was stopped (stop() drains the queue): records still queued hit a closed stream and are lost", loc=zc.loc)
 
     # ---------------------------------------------------------------- R2
     levels = {k: ast.unparse(v) for k, v in m.require_class(f"{LOG}.Loglevel").class_attrs.items() if not k.startswith("_")}
